@@ -216,10 +216,7 @@ def judgeLine (line : String) : String :=
                       | .ok m, .ok ans _ =>
                         let cm := match c.opt with | .distance => m.distance | .time => m.time
                         let ci := match c.opt with | .distance => ans.distance | .time => ans.time
-                        -- with identification gaps both A* runs are only minimal up to the gap budget (known finding) and
-                        -- may break the near-tie differently
-                        if !closeTo c.exact cm ci && rabs (cm - ci) ≤ snm.gapBudget c.opt then (none, false)
-                        else if !closeTo c.exact cm ci then (some s!"q{i}:model-cost-differs(model:{m.links}:{cm}|impl:{ans.links}:{ci}|s={m.startNode},t={m.endNode})", false)
+                        if !closeTo c.exact cm ci then (some s!"q{i}:model-cost-differs(model:{m.links}:{cm}|impl:{ans.links}:{ci}|s={m.startNode},t={m.endNode})", false)
                         else if m.links.isEmpty != ans.links.isEmpty then (some s!"q{i}:emptiness-differs", false)
                         else (none, acc.2 && m.links == ans.links)
                       | .error f, _ => (some s!"q{i}:model-faults-{faultName f}", false)
